@@ -1043,6 +1043,33 @@ func (i *interpreter) yield(blocked bool) {
 
 func (i *interpreter) progress() { i.sched.stuck = 0 }
 
+// preempt is a scheduling point before/after a synchronisation operation
+// (atomic access, sync.Pool operation, mutex operation): within the per-path
+// budget the scheduler may switch to another goroutine here.  The choice is
+// a solver-level decision like any other, so the DFS explores both.
+func (i *interpreter) preempt(why string) {
+	if i.cfg.Preempt == 0 || i.ps.preempts >= i.cfg.Preempt || i.sched == nil {
+		return
+	}
+	if i.guard != nil && !i.guard.IsTrue() {
+		return
+	}
+	others := 0
+	for _, g := range i.sched.gors {
+		if !g.done && g != i.sched.cur {
+			others++
+		}
+	}
+	if others == 0 {
+		return
+	}
+	c := i.nondet("sched.preempt", types.Bool).(sym)
+	if i.decide(c.T, "preempt "+why) {
+		i.ps.preempts++
+		i.yield(false)
+	}
+}
+
 func (i *interpreter) killGoroutines() {
 	s := i.sched
 	s.aborted = true
